@@ -614,3 +614,80 @@ Proof.
   pose proof (sumd_ge_in (hr (s_addr s)) _ net d Hd) as Hge. fold (cr (s_addr s) t) in Hge.
   assert (hr (s_addr s) d = 1) by (apply (hrl_one_in _ _ removed Hin), (same_key_from _ _ _ Hk)). lia.
 Qed.
+
+(* ---- the class of the open finding was narrowed: the new class is inside the old one *)
+
+Lemma foreign_in_entry tok addr c es :
+  foreign_in tok addr c es = true ->
+  exists e, In e es /\ from_addr addr e = true /\ from_tok tok e = false /\ (tok = c \/ from_tok c e = true).
+Proof.
+  unfold foreign_in. intro H. apply existsb_exists in H as (e & He & H).
+  apply andb_true_iff in H as [H Hc]. apply andb_true_iff in H as [Ha Ht]. apply negb_true_iff in Ht.
+  exists e. split; [exact He|]. split; [exact Ha|]. split; [exact Ht|].
+  apply orb_true_iff in Hc as [Hc|Hc]; [left; apply N.eqb_eq, Hc|right; exact Hc].
+Qed.
+
+Lemma foreign_entry_intro tok addr t n d e :
+  In (n, d) (t_dests t) -> In e (d_entries d) -> from_addr addr e = true -> from_tok tok e = false ->
+  foreign_entry tok addr t = true.
+Proof.
+  intros Hin He Ha Ht. unfold foreign_entry. apply existsb_exists. exists e. split.
+  - unfold all_entries. apply in_flat_map. exists (n, d). split; assumption.
+  - rewrite Ha, Ht. reflexivity.
+Qed.
+
+Lemma touch_in_two_sessions f mx c ops : forall t,
+  inv1 f t -> Forall (op_wf f) ops -> Forall (ctr_disciplined f mx) ops ->
+  known_touch_from c t ops = true -> known_two_sessions_from (f c) t ops = true.
+Proof.
+  induction ops as [|o r IH]; intros t H1 Hw Hd Hk; [discriminate|].
+  apply Forall_cons_iff in Hw as [Hwo Hwr]. apply Forall_cons_iff in Hd as [Hdo Hdr].
+  cbn [known_touch_from known_two_sessions_from] in *. apply orb_true_iff in Hk as [Hk|Hk];
+    [|apply orb_true_iff; right; apply (IH _ (inv1_step f t o H1 Hwo) Hwr Hdr Hk)].
+  apply orb_true_iff. left.
+  assert (Hgen : forall tok addr n d, f tok = addr -> In (n, d) (t_dests t) ->
+                   foreign_in tok addr c (d_entries d) = true ->
+                   (addr =? f c) && foreign_entry tok addr t = true).
+  { intros tok addr n d Hf Hin Hfi. destruct (foreign_in_entry _ _ _ _ Hfi) as (e & He & Ha & Ht & Hc).
+    apply andb_true_iff. split; [|apply (foreign_entry_intro tok addr t n d e Hin He Ha Ht)].
+    apply N.eqb_eq. destruct Hc as [->|Hc]; [symmetry; exact Hf|].
+    destruct H1 as [_ _ Htok]. pose proof (Htok _ _ _ Hin He) as W. unfold wf_entry in W.
+    unfold from_addr in Ha. unfold from_tok in Hc. apply N.eqb_eq in Ha, Hc. congruence. }
+  destruct o as [s net rpid nh a filt nhinv lim|s net rpid ctr|k addr ctr|llgr addr|nh rr| |];
+    cbn [touch_event acting] in *; try discriminate.
+  - cbn [ctr_disciplined] in Hdo. destruct Hdo as [_ Hs]. unfold entries_of in Hk.
+    destruct (alookup net (t_dests t)) as [d|] eqn:Hd; [|discriminate].
+    apply (Hgen _ _ net d (eq_sym Hs) (alookup_in _ _ _ Hd) Hk).
+  - cbn [ctr_disciplined] in Hdo. destruct Hdo as [_ Hs]. unfold entries_of in Hk.
+    destruct (alookup net (t_dests t)) as [d|] eqn:Hd; [|discriminate].
+    destruct (find (same_key s rpid) (d_entries d)); [|discriminate].
+    apply (Hgen _ _ net d (eq_sym Hs) (alookup_in _ _ _ Hd) Hk).
+  - destruct k; [discriminate| | |]; cbn [ctr_disciplined] in Hdo; destruct Hdo as (c' & -> & Hfc);
+      apply existsb_exists in Hk as ([n d] & Hin & Hk); cbn [snd] in Hk; apply andb_true_iff in Hk as [_ Hk];
+      apply (Hgen _ _ n d Hfc Hin Hk).
+Qed.
+
+Lemma C15_known_class_narrowed :
+  forall f mx shard ops c,
+    Forall (op_wf f) ops -> Forall (ctr_disciplined f mx) ops ->
+    Known_C15_session_touch c shard ops -> Known_C15_two_sessions (f c) shard ops.
+Proof.
+  intros f mx shard ops c Hw Hd Hk. unfold Known_C15_session_touch, Known_C15_two_sessions in *.
+  apply (touch_in_two_sessions f mx c ops _ (inv1_empty f shard) Hw Hd Hk).
+Qed.
+
+(* ... strictly: a restarted session that announces a prefix the old session never
+   had is in the old class and not in the new one *)
+Definition narrow_ops : list op :=
+  [ Insert (ex_src 1 1 9 0) 1 0 (Some 1) kf_attr false false (Some (5, 1));
+    Restale false 1;
+    Insert (ex_src 11 1 9 0) 2 0 (Some 1) kf_attr false false (Some (5, 11));
+    Remove (ex_src 11 1 9 0) 2 0 (Some 11) ].
+
+Example C15_known_class_strictly_narrower :
+  Known_C15_two_sessions 1 0 narrow_ops /\ ~ Known_C15_session_touch 11 0 narrow_ops
+  /\ ~ Known_C15_session_touch 1 0 narrow_ops.
+Proof.
+  unfold Known_C15_two_sessions, Known_C15_session_touch. vm_compute.
+  split; [reflexivity|]. split; discriminate.
+Qed.
